@@ -155,3 +155,19 @@ Example C14_mirror_all_instance :
   | _ => False
   end.
 Proof. vm_compute. reflexivity. Qed.
+
+(* ---------- the reader never makes bits up ---------- *)
+From KV Require Import Proofs.EosProofs.
+(* a ReadBits / ReadArray that succeeds has consumed exactly its number of bits of the data that was there (so the
+   counter of unread bits goes down by the size of the operation at every step), and one that asks for more than
+   what is left panics - on every path, for every buffer size and short-read schedule *)
+Theorem C14_successful_reads_consume_real_bits : forall s count,
+  RA s ->
+  (forall s' l, 0 < count -> read_array s count = (s', Val l) -> count <= total s /\ RA s' /\ total s = total s' + count) /\
+  (forall s' v, 1 <= count <= 64 -> read_bits s count = (s', Val v) -> count <= total s /\ RA s' /\ total s = total s' + count) /\
+  (total s < count -> exists s' e, read_array s count = (s', Pan e)).
+Proof.
+  intros s count HR. split; [intros s' l Hc E; exact (read_array_acc s count s' l HR Hc E)|].
+  split; [intros s' v Hc E; exact (read_bits_acc s count s' v HR Hc E)|]. intros Ht. exact (read_array_eos s count HR Ht).
+Qed.
+Print Assumptions C14_successful_reads_consume_real_bits.
